@@ -23,6 +23,9 @@ const (
 )
 
 func (k Kind) String() string {
+	if k < 0 || k >= NumKinds {
+		return [...]string{"Key", "Bytes"}[(-int(k)+1)%2]
+	}
 	return [...]string{"Sign1", "Sign1Untagged", "Sign", "Signature", "Countersignature", "ProtectedHeader", "UnprotectedHeader"}[k]
 }
 
@@ -152,8 +155,17 @@ func (e *Env) AlgOf() (alg int64, present, isInt bool) {
 // IllFormed describes the clause of the well-formedness statement that an
 // input violates.
 type IllFormed struct {
-	Clause string // short stable identifier, used for root-cause keys
+	Clause string // short stable identifier, used for root-cause keys (may carry a "sig[i]/" or "csig/" location prefix)
 	Detail string
+}
+
+// Base returns the clause without its location prefixes.
+func (e *IllFormed) Base() string {
+	c := e.Clause
+	if i := strings.LastIndex(c, "/"); i >= 0 {
+		c = c[i+1:]
+	}
+	return c
 }
 
 func (e *IllFormed) Error() string { return e.Clause + ": " + e.Detail }
@@ -181,6 +193,9 @@ func WellFormed(kind Kind, b []byte) error {
 	case KProtected:
 		return wfProtected(n, nil)
 	case KUnprotected:
+		if n.Major != 5 {
+			return ill("shape", "unprotected header must be a map")
+		}
 		if e := wfEnvelopeItem(n, false); e != nil {
 			return e
 		}
@@ -223,10 +238,26 @@ func wfEnvelopeItem(n *rc.Node, noTags bool) error {
 
 func dupIll(k *rc.Node) *IllFormed {
 	what := "dup-key"
-	if k.Major == 7 && k.AI >= 25 && k.AI <= 27 {
-		what = "dup-key/float"
+	if isNaNKey(k) {
+		what = "dup-key-nan"
 	}
 	return ill(what, "duplicate map key at offset %d (%x)", k.Start, k.Raw())
+}
+
+// isNaNKey reports whether k is a floating-point NaN of any width.
+func isNaNKey(k *rc.Node) bool {
+	if k.Major != 7 {
+		return false
+	}
+	switch k.AI {
+	case 25:
+		return k.Arg&0x7c00 == 0x7c00 && k.Arg&0x03ff != 0
+	case 26:
+		return k.Arg&0x7f800000 == 0x7f800000 && k.Arg&0x007fffff != 0
+	case 27:
+		return k.Arg&0x7ff0000000000000 == 0x7ff0000000000000 && k.Arg&0x000fffffffffffff != 0
+	}
+	return false
 }
 
 func wfStruct(kind Kind, n *rc.Node) error {
